@@ -76,10 +76,10 @@ def pad_genes(events):
     """structured genotypes seen early have fewer keys than later ones: pad to the final key count"""
     n = 0
     for e in events:
-        for o in e["objs"]:
+        for o in e.get("objs", []):
             n = max(n, len(o["genes"])) if o["kind"].endswith("struct") else n
     for e in events:
-        for o in e["objs"]:
+        for o in e.get("objs", []):
             if o["kind"].endswith("struct"):
                 o["genes"] += [{"has": False, "g": []}] * (n - len(o["genes"]))
 
@@ -195,12 +195,15 @@ def step_trace(R, spec, repkind, stepname, mkstep, quick, multi=False, nan=False
         step = mkstep()
         gens = 10 if quick else 40
         for gi in range(gens):
+            given = list(pop)               # the list object the step receives
+            order_before = [reg.ids.of(x) for x in given]
             try:
                 with time_limit(30):
-                    new = list(step.apply(problem, evaluator, rep, rs, list(pop), n, gi + 1))
+                    new = list(step.apply(problem, evaluator, rep, rs, given, n, gi + 1))
                     evaluator.evaluate(problem, new)
             except Exception:
                 break
+            evs.append({"e": "given", "op": stepname, "before": order_before, "after": [reg.ids.of(x) for x in given]})
             evs.append({"e": "snap", "op": stepname, "objs": [reg.snap(x) for x in pop] + [reg.snap(x) for x in new]})
             pop = new
             if (gi + 1) % 10 == 0:
